@@ -182,7 +182,9 @@ pub fn run(sc: &Scenario, hooks: Hooks) -> Vec<Value> {
 
     let res = std::panic::catch_unwind(std::panic::AssertUnwindSafe(|| {
         executor.enter(|| {
-            let mut server: Server = build!(Server::builder().with_endpoint_limits(s2n_quic::provider::endpoint_limits::Default::builder().with_inflight_handshake_limit(if scn.retry { 0 } else { usize::MAX }).unwrap().build().unwrap()).unwrap(), &scn.s, handle, "s", scn.seed ^ 0x51, server_tap, (certificates::CERT_PEM, certificates::KEY_PEM), scn);
+            let mut server: Server = if let Some(t) = &scn.tp_tamper {
+                build!(Server::builder().with_endpoint_limits(s2n_quic::provider::endpoint_limits::Default::builder().with_inflight_handshake_limit(if scn.retry { 0 } else { usize::MAX }).unwrap().build().unwrap()).unwrap(), &scn.s, handle, "s", scn.seed ^ 0x51, server_tap, crate::tamper::TamperProvider { tamper: t.clone(), me: "s" }, scn)
+            } else { build!(Server::builder().with_endpoint_limits(s2n_quic::provider::endpoint_limits::Default::builder().with_inflight_handshake_limit(if scn.retry { 0 } else { usize::MAX }).unwrap().build().unwrap()).unwrap(), &scn.s, handle, "s", scn.seed ^ 0x51, server_tap, (certificates::CERT_PEM, certificates::KEY_PEM), scn) };
             let addr = server.local_addr().unwrap();
             *server_slot.lock().unwrap() = Some(addr);
             {
@@ -193,7 +195,9 @@ pub fn run(sc: &Scenario, hooks: Hooks) -> Vec<Value> {
                     }
                 });
             }
-            let client: Client = build!(Client::builder(), &scn.c, handle, "c", scn.seed ^ 0xc1, client_tap, certificates::CERT_PEM, scn);
+            let client: Client = if let Some(t) = &scn.tp_tamper {
+                build!(Client::builder(), &scn.c, handle, "c", scn.seed ^ 0xc1, client_tap, crate::tamper::TamperProvider { tamper: t.clone(), me: "c" }, scn)
+            } else { build!(Client::builder(), &scn.c, handle, "c", scn.seed ^ 0xc1, client_tap, certificates::CERT_PEM, scn) };
             let sh = shared.clone();
             primary::spawn(async move {
                 let connect = Connect::new(addr).with_server_name("localhost");
